@@ -5,7 +5,7 @@ PROP = [("uninitialised minx_n", "C01"), ("delete instead of delete[]", "C19"), 
         ("shared cache", "C04"), ("kept cached q_xx", "C04"), ("row pointers of V", "C04"), ("installed an empty matrix V", "C04"), ("min_subset_x accepted", "C20"),
         ("ignored ICGS::error", "C20"), ("dangling minx_i", "C04"), ("kept the old solution", "C04"), ("without <cov-mat>", "C11"),
         ("dim differs", "C10"), ("memcpy from a null", "C15"), ("TransVec * MatBase summed", "C15"), ("TransMat sums and the products", "C15"), ("empty <obs>", "C11"), ("hdiff::active", "C11"), ("graph without nodes", "C11"),
-        ("200 gon off", "C06"), ("AcordHdiff marked", "C06"), ("station of the first observation", "C07"), ("too few constrained", "C20"), ("observed y coordinates", "C13"), ("fix: g3 ", "C19"), ("gama-g3 read x(0)", "C19"), ("refinement of approximate", "C06"), ("--export dropped the standard", "C13"), ("--export did not write the extern", "C13"), ("inside <coordinates> was erased", "C11"), ("overflows to infinity", "C11"), ("took the id of the previous point", "C11"), ("pvector::active", "C11"), ("conf-pr >= 1", "C11"), ("fs_dh attribute of an <angle>", "C13"), ("wrote the latitude in radians", "C13"), ("apriori_m_0(m) left", "C04"), ("changing the type of the reference standard deviation", "C04"), ("--export wrote point identifiers", "C13"), ("--export in degree mode wrote the covariance", "C13"), ("apostrophe", "C12"), ("Octave output wrote y", "C12"), ("60 in the seconds", "C18"), ("latitude() / longitude() could print 60", "C18"), ("lone sign", "C18"), ("polar axis", "C18"), ("written to the adjustment XML unescaped", "C12"), ("invisible to the levelling pass", "C06"), ("vectors pass of approximate coordinates", "C06"), ("from a zenith angle alone", "C06"), ("turned by the orientation of that set", "C06"), ("first computed without the azimuths", "C06"), ("first computed without the slope distances", "C06")]
+        ("200 gon off", "C06"), ("AcordHdiff marked", "C06"), ("station of the first observation", "C07"), ("too few constrained", "C20"), ("observed y coordinates", "C13"), ("fix: g3 ", "C19"), ("gama-g3 read x(0)", "C19"), ("refinement of approximate", "C06"), ("--export dropped the standard", "C13"), ("--export did not write the extern", "C13"), ("inside <coordinates> was erased", "C11"), ("overflows to infinity", "C11"), ("took the id of the previous point", "C11"), ("pvector::active", "C11"), ("conf-pr >= 1", "C11"), ("fs_dh attribute of an <angle>", "C13"), ("wrote the latitude in radians", "C13"), ("apriori_m_0(m) left", "C04"), ("changing the type of the reference standard deviation", "C04"), ("--export wrote point identifiers", "C13"), ("--export in degree mode wrote the covariance", "C13"), ("apostrophe", "C12"), ("Octave output wrote y", "C12"), ("60 in the seconds", "C18"), ("latitude() / longitude() could print 60", "C18"), ("lone sign", "C18"), ("polar axis", "C18"), ("written to the adjustment XML unescaped", "C12"), ("invisible to the levelling pass", "C06"), ("vectors pass of approximate coordinates", "C06"), ("from a zenith angle alone", "C06"), ("turned by the orientation of that set", "C06"), ("first computed without the azimuths", "C06"), ("first computed without the slope distances", "C06"), ("Adj::defect(), rtr(), q_xx() and q_bb() solve first", "C04"), ("DataParser", "C11")]
 kf = json.load(open("/verif/known-findings.json"))
 log = subprocess.run(["git", "-C", "/repo", "log", "--format=%h %s", "--grep", "^fix:"], stdout=subprocess.PIPE, universal_newlines=True).stdout.strip().split("\n")
 kf["findings"] = [f for f in kf["findings"] if f["status"] != "fixed"]
